@@ -1,8 +1,11 @@
 //! Correspondence / oracle harness: reads one operation per line, answers one line per operation.
 //! `--oracle` switches from "answer like the model would" to "evaluate the property's own predicate
 //! on the real code, independently of the model".
+mod gen;
 mod l1;
 mod l2;
+mod l3;
+mod tok;
 mod util;
 
 use std::io::{BufRead, Write};
@@ -52,6 +55,16 @@ fn handle(line: &str, oracle: bool) -> String {
                 _ => bad(),
             }
         }
+        (["DFDEC", id, len, p], o) => match (len.parse::<usize>(), p.parse::<u64>()) {
+            (Ok(len), Ok(p)) => if o { l3::oracle_dfdec(id, len, p) } else { l3::op_dfdec(id, len, p) },
+            _ => bad(),
+        },
+        (["DFENC", id, rest @ ..], false) => l3::op_dfenc(id, rest),
+        (["DEC", h], false) => unhex(h).map(|d| l3::op_dec(&d)).unwrap_or_else(bad),
+        (["ENC", n, rest @ ..], false) => match n.parse::<u16>() {
+            Ok(n) => l3::op_enc(n, rest),
+            _ => bad(),
+        },
         _ => bad(),
     }
 }
